@@ -24,7 +24,7 @@ def assign(heights, subs, grps, nrow, add, new_page, conts=None):
             for r, c in zip(rows, conts):
                 r["continuation_header_rows"] = c
         out = PBC._assign_pages(NS(pagination=NS(nrow=nrow)), MetaFrame(rows), add, new_page)
-        return [r["page"] for r in out.rows]
+        return [r["page"] for r in out.to_dicts()]
     finally:
         core.pl = saved
 
@@ -117,7 +117,7 @@ def metadata(cols, col_widths, page_by, subline_by, removed, nrow, add, new_page
         out = PBC.calculate_row_metadata(calc_ns(nrow), df, col_widths, page_by=page_by, subline_by=subline_by,
                                          removed_column_indices=removed, additional_rows_per_page=add,
                                          new_page=new_page)
-        return out.rows
+        return out.to_dicts()
     finally:
         core.pl, core.get_string_width = saved
 
